@@ -4,7 +4,24 @@ import types
 from contracts.native import rf
 
 
+def _replay_profile():
+    cl = rf.load_cluster()
+    fails = []
+    for name, values in (('request_timeout', [None, 0.0, 2.5]), ('consistency_level', [0, 4]), ('retry_policy', ['R']), ('row_factory', ['RF']),
+                         ('speculative_execution_policy', ['S']), ('load_balancing_policy', ['L']), ('continuous_paging_options', ['CP'])):
+        for v in values:
+            got = getattr(cl.ExecutionProfile(**{name: v}), name)
+            if got is not v and not (got == v and type(got) is type(v)):
+                fails.append('ExecutionProfile(%s=%r) holds %r' % (name, v, got))
+    d = cl.ExecutionProfile(load_balancing_policy='L')
+    if d.consistency_level != 6 or d.request_timeout != 10.0 or d.serial_consistency_level is not None or d._consistency_level_explicit:
+        fails.append('defaults: consistency %r, timeout %r, serial %r' % (d.consistency_level, d.request_timeout, d.serial_consistency_level))
+    return {'reproduced': bool(fails), 'detail': '; '.join(fails[:3]) or 'constructor stores what it is given'}
+
+
 def replay(model, obligation):
+    if 'ExecutionProfile.__init__' in obligation:
+        return _replay_profile()
     cl = rf.load_cluster()
     from cassandra.query import SimpleStatement, FETCH_SIZE_UNSET
     from cassandra.policies import RetryPolicy
